@@ -124,6 +124,9 @@ THEOREMS.update({
 EXPLANATION += ("  The prepare wrapper's get_args() is re-translated on every run (configuration ARGS_GET_ARGS_PR -> Generated/SrcCliArgs.v; link and "
                 "trusted primitives: C03's evidence, theorems C03_model_is_source_cli_args_*); C11 uses its consequence that the plain arguments, "
                 "--holdout-fraction among them, reach main() unchanged. ")
+import c18_args
+THEOREMS.update(c18_args.parser_theorems("C11", {"prepare_retrospective_simulation": ["fraction", "fields", "dests_derived"]}))
+EXPLANATION += c18_args.parser_explanation(["prepare_retrospective_simulation"])
 
 
 def gen(rng, tier):
